@@ -25,6 +25,9 @@ from gemseo.core.parallel_execution.callable_parallel_execution import (
     CallableParallelExecution,
 )
 from gemseo.core.parallel_execution.callable_parallel_execution import CallbackType
+from gemseo.core.parallel_execution.disc_parallel_execution import (
+    _reset_failed_status,
+)
 from gemseo.typing import StrKeyMapping
 from gemseo.utils.constants import N_CPUS
 
@@ -73,6 +76,7 @@ class _Functor:
         Returns:
             The discipline :attr:`.Discipline.io.data` and its jacobian.
         """  # noqa:D205 D212 D415
+        _reset_failed_status(self.__disc)
         jacobian = self.__disc.linearize(inputs, execute=self.__execute)
         return _WorkerData(self.__disc.io.data, jacobian)
 
